@@ -313,12 +313,22 @@ def build():
                         ctx.assume(ctx.not_(_member(ctx, A0, r5)))
                     elif r5 in A0:
                         raise Skip()
-                out = ctx.attempt(f, conn, q, arr, reg)
+                import inspect
+                extra = {}
+                params = inspect.signature(f).parameters
+                if "k" in params:
+                    extra["k"] = ctx.int("k", -3, 300)          # operand VALUE of the operation: any (0, negative, large)
+                if "m" in params:
+                    extra["m"] = ctx.int("m", 1, 300)
+                out = ctx.attempt(f, conn, q, arr, reg, **extra)
                 if out[0] == "exc":
                     # running out of registers is legitimate only if A0 leaves too few free
                     ctx.check("operation-compiles-when-enough-registers-are-free", _few_free(ctx, A0, 10))
                     return
                 check_balance(ctx, conn, A0)
+                if out[1] == "flushed":
+                    ctx.check("balance: every measurement register is free again after the flush",
+                              all(not used for used in conn._builder._mem_mgr._used_meas_registers.values()))
                 if out[1] != "flushed":
                     check_no_clobber(ctx, list(conn._builder._pending_commands), A0, allocs, handed_in=list(out[1] or []))
             return g
